@@ -6,13 +6,7 @@
 import Kopf.Lemmas.C13_Converge
 namespace Kopf.C13
 
-/-- what may happen between the loss and the settling: time passes; survivors touch, wake and process the status -/
-def Quiet : Label → Prop
-  | .tick _ | .expire _ | .keepalive _ _ | .wake _ _ | .deliver _ => True
-  | _ => False
-
-/-- a sleeping call belongs to a running operator -/
-def SleepAlive (s : State) : Prop := ∀ i o, s.ops i = some o → o.sleeping = true → o.alive = true
+-- (`Quiet`, `SleepAlive`: statement vocabulary, defined in the model file)
 
 theorem sleepAlive_upd {s s' : State} {i : Identity} {onew : Op} (h : SleepAlive s) (hops : s'.ops = updOp s.ops i onew)
     (hn : onew.sleeping = true → onew.alive = true) : SleepAlive s' := by
@@ -36,6 +30,10 @@ theorem sleepAlive_step {u : Int} {s s' : State} {l : Label} (h : SleepAlive s) 
   | deliver i => obtain ⟨o, _, ha, _, _, _, _, hops⟩ := deliver_spec hs; exact sleepAlive_upd h hops (fun _ => ha)
   | deliverStale i v => obtain ⟨o, _, ha, _, _, _, _, hops⟩ := stale_spec hs; exact sleepAlive_upd h hops (fun _ => ha)
   | wake i lag => obtain ⟨o, _, _, _, _, hops, _⟩ := wake_spec hs; exact sleepAlive_upd h hops (fun e => by simp at e)
+  | wakeIssue i => obtain ⟨o, _, _, _, _, _, _, hops⟩ := wakeIssue_spec hs; exact sleepAlive_upd h hops (fun e => by simp at e)
+  | land i =>
+    obtain ⟨o, t, ho, _, _, _, hops, _⟩ := land_spec hs
+    exact sleepAlive_upd h hops (fun e => h i o ho (by simpa using e))
   | tick d => simp only [step, Option.some.injEq] at hs; subst hs; exact h
   | expire j => simp only [step, Option.some.injEq] at hs; subst hs; exact h
   | foreign j r => simp only [step, Option.some.injEq] at hs; subst hs; exact h
@@ -172,6 +170,8 @@ theorem quiet_run {u : Int} {a : Identity} : ∀ (ls : List Label) (s s' : State
         | kill _ => exact absurd hql (by simp [Quiet])
         | deliverStale _ _ => exact absurd hql (by simp [Quiet])
         | foreign _ _ => exact absurd hql (by simp [Quiet])
+        | wakeIssue _ => exact absurd hql (by simp [Quiet])
+        | land _ => exact absurd hql (by simp [Quiet])
       obtain ⟨hg', hsa', hso'⟩ := ih s1 s' (fun l hl => hq l (List.mem_cons_of_mem _ hl)) key.1 hsa1 h
       exact ⟨hg', hsa', sameOps_trans key.2 hso'⟩
 
@@ -203,5 +203,35 @@ theorem loss_spec {u : Int} {s s1 : State} {a : Identity} (hg : Good u s)
     exact hg.distinct i j oi oj hi hj hai haj hp
   · intro hsa
     exact sleepAlive_upd hsa hops (fun e => by simp at e)
+
+/-- running priorities stay distinct when the operators stay the same -/
+theorem distinct_sameOps {s s' : State} (hso : SameOps s s')
+    (hd : ∀ i j oi oj, s.ops i = some oi → s.ops j = some oj → oi.alive = true → oj.alive = true → oi.prio = oj.prio → i = j) :
+    ∀ i j oi oj, s'.ops i = some oi → s'.ops j = some oj → oi.alive = true → oj.alive = true → oi.prio = oj.prio → i = j := by
+  intro i j oi oj hi hj hai haj hp
+  have back : ∀ k ok, s'.ops k = some ok → ∃ o1, s.ops k = some o1 ∧ ok.prio = o1.prio ∧ ok.alive = o1.alive := by
+    intro k ok hk
+    rcases hso k with ⟨_, y⟩ | ⟨o, o', ho, ho', hpp, hal⟩
+    · rw [y] at hk; cases hk
+    · rw [ho'] at hk; injection hk with e; subst e; exact ⟨o, ho, hpp, hal⟩
+  obtain ⟨a1, h1', hp1, ha1⟩ := back i oi hi
+  obtain ⟨b1, h2', hp2, ha2'⟩ := back j oj hj
+  exact hd i j a1 b1 h1' h2' (by rw [← ha1]; exact hai) (by rw [← ha2']; exact haj) (by omega)
+
+/-- no live ghosts before a quiet run, none after it: every live record still belongs to a running operator -/
+theorem quiet_noGhost {u : Int} (mid : List Label) (s s2 : State) (hq : ∀ l ∈ mid, Quiet l)
+    (hng : ∀ j r, (j, r) ∈ s.status → r.dead u s.now = false → ∃ op, s.ops j = some op ∧ op.alive = true ∧ r.priority = op.prio)
+    (hsa : SleepAlive s) (h : run u s mid = some s2) :
+    (∀ j r, (j, r) ∈ s2.status → r.dead u s2.now = false → ∃ op, s2.ops j = some op ∧ op.alive = true ∧ r.priority = op.prio) ∧
+    SleepAlive s2 ∧ SameOps s s2 := by
+  obtain ⟨hx, hsa2, hso⟩ := quiet_run (a := "x") mid s s2 hq (fun j r hm hd => Or.inr (hng j r hm hd)) hsa h
+  obtain ⟨hy, _, _⟩ := quiet_run (a := "y") mid s s2 hq (fun j r hm hd => Or.inr (hng j r hm hd)) hsa h
+  refine ⟨?_, hsa2, hso⟩
+  intro j r hm hd
+  rcases hx j r hm hd with hjx | h1
+  · rcases hy j r hm hd with hjy | h2
+    · rw [hjx] at hjy; exact absurd hjy (by decide)
+    · exact h2
+  · exact h1
 
 end Kopf.C13
